@@ -4,7 +4,8 @@
    store [d_ideal] is keyed by the full id (index, generation).  All theorems are about the
    Structs layer (coq/Structs/Machine.v), every history, every identity hash. *)
 From Salsa Require Import Base.
-From Salsa.Structs Require Import Model Machine ProofsStep Theorems Examples.
+From Salsa.Structs Require Import Model Dsl Machine ProofsStep Theorems Examples Guard SimBase Sim SimExamples
+     SSem SInv SRun STop SAdeq SDsl S1Examples.
 
 (* C07_invariant: in every reachable state of the machine the ownership invariant holds: free-list
    entries are dead slots with their generation, dead slots have empty memo tables, every id
@@ -129,3 +130,140 @@ Example C07_nonvacuous :
   | None => False
   end.
 Proof. exact hist1_runs. Qed.
+
+(* C07_model_invariant: the ownership invariant holds after EVERY operation of the EXECUTABLE
+   model (run_ops), for every well-formed program, identity hash and handle-safe non-unwinding
+   history (see Props/C06.v C06_model_invariant for the hypotheses); the real run equals the
+   monitored run and no query is left claimed. *)
+Theorem C07_model_invariant :
+  forall (prog : qk -> body) (skind : N -> bool) (sfams : list N) (idhash : val -> N),
+  (forall fam, In fam sfams -> skind fam = true) ->
+  (forall q, bwf skind (prog q)) ->
+  forall fuel iv idur os,
+  handle_safe prog skind sfams idhash fuel (init iv idur) os = true ->
+  forall os1 os2, os = os1 ++ os2 ->
+  run_ops prog skind sfams idhash fuel (init iv idur) os1 = grun_ops prog skind sfams idhash fuel (init iv idur) os1 /\
+  OInv skind (fst (run_ops prog skind sfams idhash fuel (init iv idur) os1)) [] /\
+  d_stack (fst (run_ops prog skind sfams idhash fuel (init iv idur) os1)) = [].
+Proof. exact model_invariant_every_op. Qed.
+Check C07_model_invariant :
+  forall (prog : qk -> body) (skind : N -> bool) (sfams : list N) (idhash : val -> N),
+  (forall fam, In fam sfams -> skind fam = true) ->
+  (forall q, bwf skind (prog q)) ->
+  forall fuel iv idur os,
+  handle_safe prog skind sfams idhash fuel (init iv idur) os = true ->
+  forall os1 os2, os = os1 ++ os2 ->
+  run_ops prog skind sfams idhash fuel (init iv idur) os1 = grun_ops prog skind sfams idhash fuel (init iv idur) os1 /\
+  OInv skind (fst (run_ops prog skind sfams idhash fuel (init iv idur) os1)) [] /\
+  d_stack (fst (run_ops prog skind sfams idhash fuel (init iv idur) os1)) = [].
+Print Assumptions C07_model_invariant.
+
+(* C07_model_interior: inside an operation.  In a state satisfying the invariant with frames F
+   for the executions in progress (Cons: every frame's query is claimed, claimed keys are current
+   ids and read-locked), running the body of q at any monitored level — new structs, specify,
+   nested fetches, deletions by nested completions — leads to a state satisfying the invariant
+   with q's frame replaced by the frame the body returns.  With C07_no_alias / C06_discard
+   (stated over OInv) this gives the no-alias and discard statements for the interior states of
+   the executable model. *)
+Theorem C07_model_interior :
+  forall (prog : qk -> body) (skind : N -> bool) (sfams : list N) (idhash : val -> N),
+  (forall fam, In fam sfams -> skind fam = true) ->
+  (forall q, bwf skind (prog q)) ->
+  forall n q fr s F s' r,
+  OInv skind s F -> Cons skind s F -> In (q, fr) F ->
+  run_body skind sfams idhash (glevel prog skind sfams idhash n) q (prog q) fr s = (s', SOk r) ->
+  OInv skind s' (set_frame F q (snd r)).
+Proof. exact glevel_run_body. Qed.
+Check C07_model_interior :
+  forall (prog : qk -> body) (skind : N -> bool) (sfams : list N) (idhash : val -> N),
+  (forall fam, In fam sfams -> skind fam = true) ->
+  (forall q, bwf skind (prog q)) ->
+  forall n q fr s F s' r,
+  OInv skind s F -> Cons skind s F -> In (q, fr) F ->
+  run_body skind sfams idhash (glevel prog skind sfams idhash n) q (prog q) fr s = (s', SOk r) ->
+  OInv skind s' (set_frame F q (snd r)).
+Print Assumptions C07_model_interior.
+
+(* C07_model_no_alias: after every operation of the executable model, a read through any id
+   listed by a stored memo agrees with the ideal store (keyed by the full id). *)
+Theorem C07_model_no_alias :
+  forall (prog : qk -> body) (skind : N -> bool) (sfams : list N) (idhash : val -> N),
+  (forall fam, In fam sfams -> skind fam = true) ->
+  (forall q, bwf skind (prog q)) ->
+  forall fuel iv idur os,
+  handle_safe prog skind sfams idhash fuel (init iv idur) os = true ->
+  forall os1 os2, os = os1 ++ os2 ->
+  forall o h, owns skind (fst (run_ops prog skind sfams idhash fuel (init iv idur) os1)) [] o h ->
+  (forall f fr s' v fr', read_field h f fr (fst (run_ops prog skind sfams idhash fuel (init iv idur) os1)) = (s', SOk (v, fr')) ->
+     exists idv f0 f1, ideal_get (d_ideal (fst (run_ops prog skind sfams idhash fuel (init iv idur) os1))) h = Some (idv, f0, f1) /\
+                       v = (if f =? 0 then f0 else f1)) /\
+  (forall s' v, read_idfield h (fst (run_ops prog skind sfams idhash fuel (init iv idur) os1)) = (s', SOk v) ->
+     exists f0 f1, ideal_get (d_ideal (fst (run_ops prog skind sfams idhash fuel (init iv idur) os1))) h = Some (v, f0, f1)).
+Proof. exact model_no_alias_every_op. Qed.
+Print Assumptions C07_model_no_alias.
+
+Example C07_model_nonvacuous :
+  OInv skind5 (fst (run_case rc_nodes rc_ival rc_idur rc_ops rc_nk rc_idhash)) [] /\
+  d_stack (fst (run_case rc_nodes rc_ival rc_idur rc_ops rc_nk rc_idhash)) = [].
+Proof. exact rc_invariant. Qed.
+
+
+(* C07_dependents_partial (stage S1): what the dependents of a reused slot compute.  The full
+   statement above speaks about ONE dependency check on a stale id; its purpose is that no
+   dependent ever answers from a struct that is not the one its id was issued for.  That purpose
+   is proved for the EXECUTABLE model on the stage-S1 histories (Props/C06.v
+   C06_from_scratch_partial for the hypotheses and the vocabulary): after every prefix os1 of the
+   history, the next Get q answers SOk v where v is the from-scratch value of q in EVERY world
+   consistent for q with the inputs, cells and allocator of the state after the Get — in such a
+   world a handle denotes the struct its creator made, whatever the slot held before — and every
+   handle in v is the current id of a live slot (no stale id leaves the engine).  Inside the
+   proof (Structs/SVerify.v walk_ok, Structs/SBody.v lock_for_read): deep verification meets an
+   edge whose answer changed before any field edge on a handle that is no longer live, and a
+   re-execution reads fields only through live handles.
+   Slot reuse with generation bump, deletion and re-creation are inside the stage; struct-keyed
+   functions, durabilities above LOW, `specify` are not. *)
+Theorem C07_dependents_partial :
+  forall (prog : qk -> body) (skind : N -> bool) (idhash : val -> N) (rank : qk -> nat) (NF : nat),
+  calls_below prog rank -> (forall q, (rank q < NF)%nat) ->
+  no_forge idhash prog -> (forall q, nospec (prog q)) -> (forall f, skind f = false) ->
+  (forall q d, calls (prog q) d -> gk d) -> (forall q d, calls (prog q) d -> first_read (prog d)) ->
+  forall fuel iv os,
+  Forall (s1_op prog) os -> 1 + 2 * N.of_nat (length os) < GMAX ->
+  Forall2 okout os (snd (run_ops prog skind [] idhash fuel (init iv (fun _ => 0)) os)) ->
+  forall os1 q os2, os = os1 ++ OGet q :: os2 ->
+  let s1 := fst (run_ops prog skind [] idhash fuel (init iv (fun _ => 0)) os1) in
+  let s' := fst (step prog skind [] idhash fuel s1 (OGet q)) in
+  exists v, snd (step prog skind [] idhash fuel s1 (OGet q)) = SOk v /\
+            (forall w, same_inputs (wcur s') w -> wcons prog idhash NF w q -> v = Ew idhash prog NF w q) /\
+            wcons prog idhash NF (wcur s') q /\
+            (forall h, In h (snd v) -> live s' h).
+Proof. exact dependents_S1. Qed.
+Check C07_dependents_partial :
+  forall (prog : qk -> body) (skind : N -> bool) (idhash : val -> N) (rank : qk -> nat) (NF : nat),
+  calls_below prog rank -> (forall q, (rank q < NF)%nat) ->
+  no_forge idhash prog -> (forall q, nospec (prog q)) -> (forall f, skind f = false) ->
+  (forall q d, calls (prog q) d -> gk d) -> (forall q d, calls (prog q) d -> first_read (prog d)) ->
+  forall fuel iv os,
+  Forall (s1_op prog) os -> 1 + 2 * N.of_nat (length os) < GMAX ->
+  Forall2 okout os (snd (run_ops prog skind [] idhash fuel (init iv (fun _ => 0)) os)) ->
+  forall os1 q os2, os = os1 ++ OGet q :: os2 ->
+  let s1 := fst (run_ops prog skind [] idhash fuel (init iv (fun _ => 0)) os1) in
+  let s' := fst (step prog skind [] idhash fuel s1 (OGet q)) in
+  exists v, snd (step prog skind [] idhash fuel s1 (OGet q)) = SOk v /\
+            (forall w, same_inputs (wcur s') w -> wcons prog idhash NF w q -> v = Ew idhash prog NF w q) /\
+            wcons prog idhash NF (wcur s') q /\
+            (forall h, In h (snd v) -> live s' h).
+Print Assumptions C07_dependents_partial.
+
+(* Non-vacuity: in the history of S1Examples the dependent rd holds a field edge on (0,0); the
+   struct is deleted (rd = 99), slot 0 is reused for (0,1) and rd re-executes to 5 = the fields of
+   the new struct; the last Get of rd is the 8th operation. *)
+Example C07_dependents_nonvacuous :
+  r1_ops = firstn 7 r1_ops ++ OGet (4, (0, 0)) :: skipn 8 r1_ops /\
+  nth_error (snd (run_ops (prog_of r1_nk skind0 r1_nodes) skind0 [] r1_idhash 40%nat
+                          (init (lookup3 r1_ival) (fun _ => 0)) r1_ops)) 7 = Some (SOk (5, [])) /\
+  nth_error (snd (run_ops (prog_of r1_nk skind0 r1_nodes) skind0 [] r1_idhash 40%nat
+                          (init (lookup3 r1_ival) (fun _ => 0)) r1_ops)) 8 = Some (SOk (0, [(0, 1)])) /\
+  nth_error (snd (run_ops (prog_of r1_nk skind0 r1_nodes) skind0 [] r1_idhash 40%nat
+                          (init (lookup3 r1_ival) (fun _ => 0)) r1_ops)) 0 = Some (SOk (3, [])).
+Proof. vm_compute. repeat split. Qed.
